@@ -90,9 +90,12 @@ def run_shard(pid, tier, seed, shard, nshards, ncases, out_path, replay=None):
                     try:
                         case = prop.gen_case(rng, tier, i)
                     except Exception as e:
+                        i += 1
+                        if type(e).__name__ == 'GeneratorExhausted':
+                            rec.event('generator_exhausted_case_skipped')
+                            continue
                         rec.begin_case(dict(gen_failed=True))
                         rec.harness_error('gen_case', traceback.format_exc())
-                        i += 1
                         continue
                 else:
                     break
